@@ -19,12 +19,13 @@ FUEL = 20000
 HEADER = """From Goml Require Import Common.Base.
 From Goml Require Sem.GoAst Sem.GoSem Sem.Src.
 Open Scope N_scope.
-(* 0 agree, 1 differ, 2 a side is unsupported / out of fuel, 3 source side stuck, 4 Go side stuck *)
+(* 0 agree, 1 differ, 2 a side is unsupported / out of fuel, 3 source side stuck, 4 Go side stuck,
+   5 the source program ends but the Go side runs out of fuel *)
 Definition klass_src (e : Sem.Src.ending) : N := match e with Sem.Src.EExit => 0 | Sem.Src.EPanic _ => 1 | Sem.Src.EStuck _ => 3 | _ => 2 end.
-Definition klass_go (e : Sem.GoSem.ending) : N := match e with Sem.GoSem.EExit => 0 | Sem.GoSem.EPanic _ => 1 | Sem.GoSem.EStuck _ => 4 | _ => 2 end.
+Definition klass_go (e : Sem.GoSem.ending) : N := match e with Sem.GoSem.EExit => 0 | Sem.GoSem.EPanic _ => 1 | Sem.GoSem.EStuck _ => 4 | Sem.GoSem.EFuel => 5 | _ => 2 end.
 Definition verdict (a : str * Sem.Src.ending) (b : str * Sem.GoSem.ending) : N :=
   let ka := klass_src (snd a) in let kb := klass_go (snd b) in
-  if (ka =? 3) then 3 else if (kb =? 4) then 4 else if (ka =? 2) || (kb =? 2) then 2
+  if (ka =? 3) then 3 else if (kb =? 4) then 4 else if (ka =? 2) || (kb =? 2) then 2 else if (kb =? 5) then 5
   else if (ka =? kb) && list_eqb (fst a) (fst b) then 0 else 1.
 """
 
@@ -42,7 +43,7 @@ def write_programs(tag, sources):
     return root, paths
 
 
-def compare(tag, paths, src_stage="mono", expected=None, per=12, fuel=FUEL, keep=False, go_paths=None, extra_dumps=()):
+def compare(tag, paths, src_stage="mono", expected=None, per=12, fuel=FUEL, keep=False, go_paths=None, extra_dumps=(), src_fuel=None):
     """-> list of dict(status, verdict, src, go, compile) per path.
     status: 'agree' | 'differ' | 'skipped' | 'src-stuck' | 'go-stuck' | 'rejected' | 'panic' | 'conv-error'
     go_paths: take the Go side of case i from another program (cross comparison)"""
@@ -86,7 +87,7 @@ def compare(tag, paths, src_stage="mono", expected=None, per=12, fuel=FUEL, keep
         if expected is not None and expected[i] is not None:
             exp = "Definition exp_%d : str := %s.\n" % (i, vlib.coq_Nlist(list(expected[i])))
         defs.append(
-            (i, "Module PS%d. Import Sem.Src. Definition r := run_src %s %s (N.to_nat %d). End PS%d.\nModule PG%d. Import Sem.GoAst Sem.GoSem. Definition r := run_go %s (N.to_nat %d). End PG%d.\nDefinition src_%d := PS%d.r.\nDefinition go_%d := PG%d.r.\n%s" % (i, fns, tab, fuel, i, i, gof, fuel, i, i, i, i, i, exp))
+            (i, "Module PS%d. Import Sem.Src. Definition r := run_src %s %s (N.to_nat %d). End PS%d.\nModule PG%d. Import Sem.GoAst Sem.GoSem. Definition r := run_go %s (N.to_nat %d). End PG%d.\nDefinition src_%d := PS%d.r.\nDefinition go_%d := PG%d.r.\n%s" % (i, fns, tab, src_fuel or fuel, i, i, gof, fuel, i, i, i, i, i, exp))
         )
         idx.append(i)
         out[i] = {"status": None, "go_text": r.get("go"), "go_side": r.get("go_side")}
@@ -111,9 +112,26 @@ def compare(tag, paths, src_stage="mono", expected=None, per=12, fuel=FUEL, keep
             exp_ok = [x.strip() == "true" for x in m2.group(1).split(";")] if m2 else None
         for k, (i, v) in enumerate(zip(g, vs)):
             out[i]["verdict"] = v
-            out[i]["status"] = {0: "agree", 1: "differ", 2: "skipped", 3: "src-stuck", 4: "go-stuck"}[v]
+            out[i]["status"] = {0: "agree", 1: "differ", 2: "skipped", 3: "src-stuck", 4: "go-stuck", 5: "go-fuel"}[v]
             if exp_ok is not None:
                 out[i]["matches_recorded_output"] = exp_ok[k]
+    # the source program ends but the Go side ran out of fuel: decide between "needs a little more depth" and "does not
+    # terminate" by giving the source an eighth of the fuel (fuel bounds the nesting depth of the evaluation, and the
+    # Go program of a source program nests at most a small constant factor deeper)
+    again = [i for i in range(len(paths)) if out[i] and out[i].get("status") == "go-fuel"]
+    if again and src_fuel is None:
+        for i in again[6:]:
+            out[i]["status"], out[i]["verdict"] = "skipped", 2  # a handful of cases is enough to decide and to report
+        again = again[:6]
+        sub = compare(tag + "_nt", [paths[i] for i in again], src_stage=src_stage, per=per, fuel=fuel, go_paths=[go_paths[i] for i in again] if go_paths is not None else None, src_fuel=max(1, fuel // 8))
+        for i, r2 in zip(again, sub):
+            if r2.get("status") == "go-fuel":
+                out[i]["status"], out[i]["verdict"] = "differ", 1
+                out[i]["why"] = "the source program ends within 1/8 of the evaluation depth the emitted Go exhausts: the Go does not terminate"
+            else:
+                out[i]["status"], out[i]["verdict"] = "skipped", 2
+    elif again:
+        pass  # second pass: the caller decides
     return out
 
 
